@@ -9,17 +9,20 @@ from symex.catalogue import Instance, spec
 from symex.symnum import is_sym
 
 EXPLANATION = ("Message objects of every algorithm and of the infrastructure are generated with symbolic numeric contents and "
-               "solver-chosen discrete contents (values, booleans, list lengths, special floats), encoded with the repository's "
-               "simple_repr, pushed through a JSON round-trip model (tuples -> lists, keys -> strings, NaN/inf rejected like the "
-               "HTTP layer's allow_nan=False; in concrete replay the real json module is used), decoded with from_repr and "
+               "solver-chosen discrete contents (values, booleans, list lengths, special floats) and sent with the repository's "
+               "HttpCommunicationLayer.send_msg (instance built without its server thread; requests.post replaced by a recorder "
+               "that encodes a json= argument like requests does, allow_nan=False, and takes a data= argument as it is; the json "
+               "module inside pydcop.infrastructure.communication replaced by a front that keeps symbolic numbers, the real "
+               "module in concrete replay), parsed like do_POST does (json.loads), decoded with from_repr and "
                "compared field by field (one query). Computation definitions of the four graph models built from symbolic DCOPs "
                "go through the same path and are compared on name, type, links, neighbours and relation values on every "
                "assignment. AgentDef goes through its own __getstate__/__setstate__ (real pickle in concrete replay).")
 ASSUMPTIONS = [
     "JSON model J: dict keys become strings (as json does: int 1 -> '1'), tuples become lists, non-finite floats raise ValueError "
-    "(requests encodes with allow_nan=False); validated against the real json module on every replayed witness",
+    "when the encoder is called with allow_nan=False (what requests does for json=...) and pass otherwise; validated against the "
+    "real json module on every replayed witness",
     "numeric contents are symbolic integers in [-2^40, 2^40]; strings are drawn from small fixed sets",
-    "the socket / HTTP server themselves are not exercised",
+    "the socket and the HTTP server (do_POST header handling) are not exercised; one real two-process-style exchange over localhost with an infinite bound was run by hand for the fix 8fa49bd",
 ]
 BOUNDS = {"quick": "54 message classes with contents of <= 3 items (replication request paths of 2 and 12 hops); computation definitions for pair and chain-3 on the 4 graph models (and a pair whose table may hold an infinite cost, on 2 models); AgentDef with <= 2 routes / hosting costs",
           "thorough": "quick + triangle and ternary instances, variable cost tables, paths / offers with 3 entries"}
@@ -29,16 +32,16 @@ LIM = 2 ** 40
 
 
 # ---------------------------------------------------------------------------
-def J(x):
-    """Model of json.loads(json.dumps(x, allow_nan=False)) that keeps symbolic numbers."""
+def J(x, allow_nan=False):
+    """Model of json.loads(json.dumps(x, allow_nan=allow_nan)) that keeps symbolic numbers."""
     if is_sym(x) or x is None or isinstance(x, (bool, str, int)):
         return x
     if isinstance(x, float):
-        if x != x or x in (float("inf"), float("-inf")):
+        if (x != x or x in (float("inf"), float("-inf"))) and not allow_nan:
             raise ValueError("Out of range float values are not JSON compliant")
         return x
     if isinstance(x, (list, tuple)):
-        return [J(v) for v in x]
+        return [J(v, allow_nan) for v in x]
     if isinstance(x, dict):
         out = {}
         for k, v in x.items():
@@ -54,15 +57,68 @@ def J(x):
                 ks = repr(k)
             else:
                 raise TypeError("keys must be str, int, float, bool or None, not %s" % type(k).__name__)
-            out[ks] = J(v)
+            out[ks] = J(v, allow_nan)
         return out
     raise TypeError("Object of type %s is not JSON serializable" % type(x).__name__)
 
 
-def wire(eng, r):
-    if eng.symbolic:
-        return J(r)
-    return json.loads(json.dumps(r, allow_nan=False))
+class _Body:
+    """A request body during symbolic execution: the document the JSON text stands for."""
+
+    def __init__(self, doc):
+        self.doc = doc
+
+
+def _dumps(eng, o, allow_nan):
+    return _Body(J(o, allow_nan)) if eng.symbolic else json.dumps(o, allow_nan=allow_nan)
+
+
+def wire(eng, obj):
+    """What the receiving agent decodes when `obj` (a message or a computation definition) is sent to another process.
+
+    The repository's HttpCommunicationLayer.send_msg is executed (on an instance built without its server thread); inside
+    pydcop.infrastructure.communication, `requests.post` is replaced by a recorder that encodes a `json=` argument the way
+    requests does (allow_nan=False) and takes a `data=` argument as it is, and the `json` module by a front that keeps
+    symbolic numbers (model J) -- the real json module in concrete replay.  The body is then parsed like do_POST does
+    (json.loads, then from_repr by the caller)."""
+    import pydcop.infrastructure.communication as cm
+    layer = object.__new__(cm.HttpCommunicationLayer)
+    layer._on_error = "fail"
+    layer.logger = cm.logging.getLogger("verif.http")
+    layer.discovery = type("D", (), {"agent_address": staticmethod(lambda a: ("host", 9000))})()
+    sent = {}
+
+    class _Requests:
+        exceptions = cm.requests.exceptions
+
+        @staticmethod
+        def post(url, headers=None, json=None, data=None, timeout=None, **kw):
+            sent["headers"] = dict(headers or {})
+            sent["body"] = _dumps(eng, json, False) if json is not None else data
+            return type("R", (), {"status_code": 200})()
+
+    class _Json:
+        JSONDecodeError = json.JSONDecodeError
+
+        @staticmethod
+        def dumps(o, **kw):
+            return _dumps(eng, o, kw.get("allow_nan", True))
+
+        @staticmethod
+        def loads(s, **kw):
+            return s.doc if isinstance(s, _Body) else json.loads(s)
+    old = cm.requests, cm.json
+    cm.requests, cm.json = _Requests, _Json
+    try:
+        ok = layer.send_msg("a_src", "a_dst", cm.ComputationMessage("c_src", "c_dst", obj, 20))
+        if ok is not True or "body" not in sent:
+            raise RuntimeError("send_msg did not post the message (returned %r)" % (ok,))
+        body = sent["body"]
+        if isinstance(body, bytes):
+            body = str(body, "utf-8")
+        return cm.json.loads(body)
+    finally:
+        cm.requests, cm.json = old
 
 
 def deep_eq(a, b, depth=0):
@@ -275,16 +331,11 @@ def run(eng, p):
         regs = []
         try:
             msg = thunk()
-            nonfinite = label.startswith("syncbb") and isinstance(getattr(msg, "ub", 0), float)
-            regs = regs + region(eng, "C15-syncbb-infinite-bound", label.startswith("syncbb.") and nonfinite)
-            regs = regs + region(eng, "C15-ncbb-infinite-bound", label == "ncbb.SearchMessage" and isinstance(msg.upper_bound, float))
-            back = from_repr(wire(eng, simple_repr(msg)))
+            back = from_repr(wire(eng, msg))
         except Exception as e:
             eng.fail("%s: encode/decode raised %s: %s" % (label, type(e).__name__, e), regions=regs,
                      detail=traceback.format_exc(limit=-4))
             return
-        # (the known findings about infinite bounds are about the encoder REFUSING them; a message that gets through must
-        # still arrive unchanged, so the regions are not attached to the two assertions below)
         eng.prove(type(back).__qualname__ == type(msg).__qualname__ and back.type == msg.type,
                   "%s: decoded object is not a message of the same type" % label)
         eng.prove(deep_eq(_msg_state(msg), _msg_state(back)), "%s: decoded message differs from the original" % label,
@@ -336,7 +387,6 @@ def run_compdef(eng, p):
     from pydcop.algorithms import AlgorithmDef, ComputationDef
     inst = Instance(eng, p["spec"], entry_kinds=["sym", "inf"] if p.get("hard") else None,
                     kind_filter=(lambda n: n == "c0_11") if p.get("hard") else None)
-    has_inf = any(isinstance(v, float) for c in inst.dcop.constraints.values() for v in _entries(c))
     gm = importlib.import_module("pydcop.computations_graph." + p["graph"])
     cg = gm.build_computation_graph(inst.dcop)
     algo = AlgorithmDef.build_with_default_param(p["algo"], {}, mode="min")
@@ -346,11 +396,10 @@ def run_compdef(eng, p):
     eng.notes["outcome"] = {"node": node.name, "graph": p["graph"]}
     regs = region(eng, "C15-ordered-graph-links-lost", p["graph"] == "ordered_graph")
     try:
-        back = from_repr(wire(eng, simple_repr(cd)))
+        back = from_repr(wire(eng, cd))
     except Exception as e:
-        # (the finding about infinite costs is about the encoder REFUSING them: attached to this failure only)
-        eng.fail("computation definition encode/decode raised %s: %s" % (type(e).__name__, e),
-                 regions=regs + region(eng, "C15-infinite-cost-in-constraint", has_inf), detail=traceback.format_exc(limit=-4))
+        eng.fail("computation definition encode/decode raised %s: %s" % (type(e).__name__, e), regions=regs,
+                 detail=traceback.format_exc(limit=-4))
         return
     n2 = back.node
     ok = (n2.name == node.name and n2.type == node.type and back.algo.algo == algo.algo and back.algo.mode == algo.mode
